@@ -1,7 +1,11 @@
 SPECIFICATION Spec
 CONSTANTS NK = 2
+ NP = 0
+ ND = 0
  Emit = FALSE
  StaleGuard = FALSE
+ KeepHandler = FALSE
 VIEW View
 INVARIANT SameText
+INVARIANT SameTable
 CHECK_DEADLOCK FALSE
